@@ -1567,6 +1567,14 @@ namespace bloch::compiler {
                                  "'" + fn->name + "' is already declared in this scope");
             }
             declareFunction(fn->name);
+            // Record the signature now, so a call that textually precedes the declaration is
+            // checked against the real parameter list (acceptance must not depend on order).
+            FunctionInfo info;
+            info.returnType = typeFromAst(fn->returnType.get());
+            for (auto& p : fn->params) {
+                info.paramTypes.push_back(typeFromAst(p->type.get()));
+            }
+            m_functionInfo[fn->name] = info;
         }
         for (auto& cls : program.classes)
             if (cls)
